@@ -75,6 +75,8 @@ def make_apply(spec):
     nattr = {'mods': 8, 'fg': 1, 'bg': 1, 'fgbg': 2, 'rgb': 2, 'none': 0}[grp]
     body.explain = lambda args: f'group={grp} attrs={list(args[:nattr])} text={mktext(args[nattr:])!r} fmt={fmt!r}'
     body.warm = [tuple([1] * nattr + [ord('a')] * ntext), tuple([0] * nattr + [ord('{')] * ntext)]
+    # texts with a combining mark / a wide character (unicodedata is a C boundary: a symbolic code point is realised there to an arbitrary value, so these classes are given natively; seed C20-6)
+    body.warm += [tuple([1] * nattr + ([0x301, ord('e'), 0x65e5] * ntext)[:ntext]), tuple([0] * nattr + ([0x65e5, 0x301, ord('e')] * ntext)[:ntext])]
     return body
 
 
